@@ -41,6 +41,10 @@ def configs(tier):
         # wind exactly along a grid axis (one component identically zero; MOSTM: Ky identically zero)
         for p_, h in itertools.product(sl.AXIS_SETS, (0.0, 13.0, None)):
             yield {"prof": p_, "grid": sl.GRIDS[0][0], "dom": sl.GRIDS[0][1], "halo": h, "modes": "full", "prec": "double"}
+        # rounding knife-edge: 3x3 cells over 80 m x 80 m, a halo of exactly three cells (80 m, also the default): int(80/dx) = 3 but
+        # 80 // dx = 2.  The oracle is the library's own forward run, so only internal consistency is judged.
+        for h in (80.0, None, 70.0):
+            yield {"prof": "most_aniso", "grid": [3, 3], "dom": [80.0, 80.0], "halo": h, "modes": [64, 64], "prec": "double"}
         # degenerate shapes: a single row / a single column of cells
         for k, (g, h) in enumerate(itertools.product(sl.DEGENERATE_GRIDS, (0.0, 13.0, None))):
             yield {"prof": sl.PROFILE_SETS[(k + 1) % 4], "grid": g[0], "dom": g[1], "halo": h, "modes": [64, 64], "prec": "double"}
